@@ -24,7 +24,7 @@ Ltac glue_cases :=
          | |- context [match ?x with _ => _ end] =>
              lazymatch x with
              | context [match _ with _ => _ end] => fail
-             | _ => destruct x; cbv beta iota zeta delta [fst snd]
+             | _ => destruct x; cbv beta iota zeta delta [fst snd negb andb orb xorb Bool.eqb]
              end
          end.
 Ltac glue_tac :=
@@ -35,7 +35,7 @@ Ltac glue_tac :=
           end;
           unfold omap, obind, ocheck, tuple_to_option, option_expect, saturate_up, saturate_down, sat_by_sign,
                  cmp_max, cmp_min, clamp, cmp_lt, cmp_le, cmp_gt, cmp_ge, mask_amount;
-          cbv beta iota zeta delta [fst snd]; glue_cases; reflexivity ].
+          cbv beta iota zeta delta [fst snd negb andb orb xorb Bool.eqb]; glue_cases; reflexivity ].
 
 (* `exp & 1 != 0` (bint saturating_pow) is the model's Z.odd *)
 Lemma land1_odd e : negb (Z.land e 1 =? 0) = Z.odd e.
